@@ -19,6 +19,9 @@ from pane.converters import Converter
 from pane.errors import ConvertError, ParseInterrupt, UnsupportedAnnotation
 from pane.util import KW_ONLY
 
+import importlib
+_MISSING = importlib.import_module('pane.field')._MISSING
+
 import scen as S
 from scen import Ctx, enc_tree, canon
 
@@ -277,7 +280,7 @@ class LiveCtx(Ctx):
         info = cls.__pane_info__
         fields = []
         for f in info.fields:
-            if f.default is not pane.field._MISSING:
+            if f.default is not _MISSING:
                 dflt = {'value': self.enc(f.default)}
             elif f.default_factory is not None:
                 dflt = {'factory': next((k for k, v in S.FACTORIES.items() if v is f.default_factory), 'unknown')}
@@ -358,6 +361,12 @@ def ext_tables(ctx, values, tys_json):
                 extra.append(float(s))
             except OverflowError:
                 pass
+            if type(s) is bool:
+                extra.append(int(s))
+        if type(s) is bytearray:
+            extra.append(bytes(s))
+        if type(s) is bytes:
+            extra.append(bytearray(s))
     cands = []
     seen = set()
     for s in scalars + extra:
@@ -385,6 +394,7 @@ def ext_tables(ctx, values, tys_json):
     fns.append(('float', float, (int,)))
     fns.append(('complex', complex, (int,)))
     out = []
+    numerics = {}
     for fn, f, accepts in fns:
         for s in cands:
             if not isinstance(s, accepts) or (fn in ('float', 'complex') and (type(s) is bool or abs(s) < 2 ** 53)):
@@ -394,9 +404,24 @@ def ext_tables(ctx, values, tys_json):
                 out.append([fn, ctx.enc(s), {'ok': ctx.enc(r)}])
             except Exception as e:  # noqa
                 out.append([fn, ctx.enc(s), _exc_entry(e)])
+                continue
+            if fn in ('Decimal', 'Fraction'):
+                numerics[repr(r)] = r
+    import math as _m, operator as _op
+    for r in numerics.values():
+        for sym, o in (('>', _op.gt), ('>=', _op.ge), ('<', _op.lt), ('<=', _op.le), ('==', _op.eq), ('!=', _op.ne)):
+            try:
+                out.append(['cmp:' + sym + ':0', ctx.enc(r), {'ok': bool(o(r, 0))}])
+            except Exception as e:  # noqa
+                out.append(['cmp:' + sym + ':0', ctx.enc(r), _exc_entry(e)])
+        try:
+            out.append(['isfinite', ctx.enc(r), {'ok': _m.isfinite(r)}])
+        except Exception as e:  # noqa
+            out.append(['isfinite', ctx.enc(r), _exc_entry(e)])
     strs = []
     seen = set()
-    for k in lv.get('keys', []) + [s for s in cands if isinstance(s, (float, complex, bytes, Decimal, Fraction))]:
+    tops = [v for v in values if isinstance(v, (tuple, float, complex, bytes, Decimal, Fraction))]
+    for k in lv.get('keys', []) + tops + [s for s in cands if isinstance(s, (float, complex, bytes, Decimal, Fraction))]:
         key = (type(k).__name__, repr(k))
         if key in seen or type(k) in (type(None), bool, int, str):
             continue
@@ -450,8 +475,29 @@ def prepare(scen):
     return ctx
 
 
+def _lits(j, out):
+    if isinstance(j, list):
+        for x in j:
+            _lits(x, out)
+    elif isinstance(j, dict):
+        if 'lit' in j and isinstance(j['lit'], list):
+            out.extend(j['lit'])
+        for v in j.values():
+            _lits(v, out)
+
+
 def finish_env(scen, ctx, values):
     """external-call tables for the given live values (input and, for round trips, intermediate results)"""
+    values = list(values)
+    lits = []
+    _lits([scen.get('ty'), scen.get('tys'), (scen.get('decl') or {}).get('classes')], lits)
+    for _, vals in (scen.get('decl') or {}).get('enums', []):
+        lits.extend(vals)
+    for l in lits:
+        try:
+            values.append(ctx.dec(l))
+        except Exception:
+            pass
     tys_json = [scen.get('ty'), scen.get('tys'), scen['env'].get('classes')]
     ext, strs = ext_tables(ctx, values, tys_json)
     have = {json.dumps(e[:2], sort_keys=True) for e in scen['env'].get('ext', [])}
@@ -550,8 +596,8 @@ def run(scen, ctx):
                 out = {'raises': map_exc(e)}
         elif op == 'render':
             try:
-                pane.from_data(val, T, custom=custom) if scen.get('api', True) else conv.convert(val)
-                out = {'value': 'accepted'}
+                r = pane.from_data(val, T, custom=custom) if scen.get('api', True) else conv.convert(val)
+                out = {'value': ctx.enc(r)}
             except ConvertError as e:
                 out = {'text': render_text(e), 'tree': enc_tree(ctx, e.tree)}
             except BaseException as e:  # noqa
@@ -629,6 +675,12 @@ def canon_text(text):
             continue
         if ln.strip() == '':
             continue
+        if ln.strip().startswith(('During handling of the above exception', 'The above exception was the direct cause')):
+            if out:
+                out.pop()     # chained context: keep only the last exception of the chain
+            continue
+        if out and (out[-1].endswith('Caused by exception:') or re.search(r"Failed to call condition '.*':$", out[-1])):
+            ln = ln.lstrip()   # indentation of the exception line depends on whether the traceback has frames
         out.append(ln.rstrip())
     # missing / unexpected lines come from sets: sort each consecutive run
     res = []
